@@ -275,6 +275,21 @@ func (f *fakeHQ) websocket(w http.ResponseWriter, r *http.Request) {
 	}()
 }
 
+// reactorTokens: the reactor must never be what holds a seed back.  Held seeds (plan H) keep their
+// token, and every add whose answer is lost (L) queues its batch a second time at the HQ, so the
+// number of seeds is not bounded by the number of outlinks: one token per outlink and per possible
+// re-delivery, with room to spare.
+func reactorTokens(spec *QSpec, npp int) int {
+	n := len(spec.Items) + npp
+	lost := 0
+	for _, f := range spec.AddF {
+		if f == 'L' {
+			lost++
+		}
+	}
+	return (n+8)*(lost+2) + 64
+}
+
 func runHQChild(spec *QSpec) (res QResult) {
 	f := &fakeHQ{t0: time.Now(), spec: spec, deleted: map[string]int{}}
 	defer func() {
@@ -324,7 +339,7 @@ func runHQChild(spec *QSpec) (res QResult) {
 	reactorOut := make(chan *models.Item)
 	finishCh := make(chan *models.Item)
 	produceCh := make(chan *models.Item)
-	if err := reactor.Start(len(spec.Items)+len(ppOuts)+8, reactorOut); err != nil {
+	if err := reactor.Start(reactorTokens(spec, len(ppOuts)), reactorOut); err != nil {
 		panic(err)
 	}
 	if err := hq.Start(finishCh, produceCh); err != nil {
